@@ -25,6 +25,10 @@ struct Case {
     wseed: u32,
     dseed: u32,
     schedules: Vec<(usize, u32)>, // (threads, delay-plan seed; 0 = no delays)
+    /// skip connections between the trailing dense layers (a shared source makes the backward pass sum several skip gradients)
+    connects: Vec<(usize, usize)>,
+    /// scale of the evaluation inputs (1e-39: intermediate values become subnormal)
+    eval_scale: f32,
 }
 
 const THREADS: [usize; 8] = [1, 2, 3, 5, 8, 16, 32, 48];
@@ -67,6 +71,16 @@ fn decode(tape: &[u32], tier: Tier) -> Case {
         let fb = LayerSpec::Feedback { layers: vec![LayerSpec::Dense { out: w, act: gen_act(&mut t, &o), bias: t.bool(), dropout: None }], loops: t.usize(2, 4), inskips: skips, outskips: skips && t.bool(), acc: Acc::Mean };
         push(&mut layers, &mut cur, fb);
     }
+    // optionally two more dense layers of the same width, so that skip connections with a shared source exist
+    let mut connects = Vec::new();
+    if t.chance(1, 3) {
+        let first = layers.len();
+        push(&mut layers, &mut cur, LayerSpec::Dense { out: w, act: gen_act(&mut t, &o), bias: t.bool(), dropout: None });
+        push(&mut layers, &mut cur, LayerSpec::Dense { out: w, act: gen_act(&mut t, &o), bias: t.bool(), dropout: None });
+        // inputs of layers first, first+1 and the final layer all have width w
+        connects.push((first, first + 1));
+        connects.push((first, first + 2));
+    }
     let out = t.usize(1, 4);
     push(&mut layers, &mut cur, LayerSpec::Dense { out, act: [ActK::Linear, ActK::Sigmoid, ActK::Softmax][t.pick(3)], bias: t.bool(), dropout: None });
     let kind = gen_optimizer(&mut t);
@@ -89,6 +103,8 @@ fn decode(tape: &[u32], tier: Tier) -> Case {
         wseed: t.raw(),
         dseed: t.raw(),
         schedules,
+        connects,
+        eval_scale: if t.chance(1, 5) { 1e-39 } else { 1.0 },
     }
 }
 
@@ -105,6 +121,10 @@ struct Outcome {
 fn run_once(case: &Case, threads: usize, delay_seed: u32, data: &(Vec<Tensor>, Vec<Tensor>, Vec<Tensor>, Vec<Tensor>)) -> Result<Outcome, String> {
     let spec = &case.spec;
     let mut net = build(spec)?;
+    for (a, b) in &case.connects {
+        let (a, b) = (*a, *b);
+        catch(std::panic::AssertUnwindSafe(|| net.connect(a, b)))?;
+    }
     let ps = seeded_params(&net, spec, case.wseed, 1, 0.8);
     apply_params(&mut net, &ps);
     net.set_objective(lib_obj(ObjK::MSE), None);
@@ -190,7 +210,14 @@ fn check(case: &Case, ev: &mut CaseEv) -> CheckResult {
         )
     };
     let (tx, ty) = mk(case.dseed, case.ntrain);
-    let (ex, ey) = mk(case.dseed ^ 0xdead, case.neval);
+    let (mut ex, ey) = mk(case.dseed ^ 0xdead, case.neval);
+    if case.eval_scale != 1.0 {
+        ev.class("evaluation inputs of subnormal scale");
+        ex = ex.iter().map(|x| { let d = tens::shape_dims(&x.shape); tens::build(&d, &tens::flat(x).iter().map(|v| v * case.eval_scale).collect::<Vec<f32>>()) }).collect();
+    }
+    if !case.connects.is_empty() {
+        ev.class("skip connections with a shared source");
+    }
     let data = (tx, ty, ex, ey);
     let base = match run_once(case, 1, 0, &data) {
         Ok(b) => b,
@@ -248,7 +275,7 @@ impl Prop for C05 {
         1 // the delay plan is process-global; schedules are run one after the other
     }
     fn rule(&self) -> String {
-        "tape-decoded network containing a convolution, optionally a spatial feedback block, a deconvolution and a max-pool, a dense layer, optionally a flat feedback block (with and without skips, 2-4 loops), and a final dense layer (linear / sigmoid / soft-max); dropout on some layers; one of five optimizers; batch 2..12 (thorough 32), 8..40 (120) training samples, 65..260 (400) evaluation inputs, in one case of three 261..700 (1200) (more than one 64-chunk), non-dyadic data, 1-3 epochs with validation data. Schedules per case: 5 (thorough 10) draws from dedicated rayon pools with {2, 3, 5, 8, 16, 32, 48} threads, every second one with a tape-derived delay plan (0-200 us sleeps at the per-sample / per-prediction hooks), plus a repetition of the 1-thread run. Oracle: to_bits equality of train / validation loss vectors, accuracies, all final weights, validate() and predict_batch() in order against the 1-thread run; every run builds a fresh network. Non-trivial: batch >= 4, > 64 evaluation inputs, >= 2 threads. Distinct = (architecture, batch, sizes, schedule list).".into()
+        "tape-decoded network containing a convolution, optionally a spatial feedback block, a deconvolution and a max-pool, a dense layer, optionally a flat feedback block (with and without skips, 2-4 loops), optionally two more dense layers with skip connections from a shared source, and a final dense layer (linear / sigmoid / soft-max); evaluation inputs optionally scaled to 1e-39 (subnormal intermediates); dropout on some layers; one of five optimizers; batch 2..12 (thorough 32), 8..40 (120) training samples, 65..260 (400) evaluation inputs, in one case of three 261..700 (1200) (more than one 64-chunk), non-dyadic data, 1-3 epochs with validation data. Schedules per case: 5 (thorough 10) draws from dedicated rayon pools with {2, 3, 5, 8, 16, 32, 48} threads, every second one with a tape-derived delay plan (0-200 us sleeps at the per-sample / per-prediction hooks), plus a repetition of the 1-thread run. Oracle: to_bits equality of train / validation loss vectors, accuracies, all final weights, validate() and predict_batch() in order against the 1-thread run; every run builds a fresh network. Non-trivial: batch >= 4, > 64 evaluation inputs, >= 2 threads. Distinct = (architecture, batch, sizes, schedule list).".into()
     }
     fn assumptions(&self) -> Vec<String> {
         vec!["rayon's work-stealing decisions are not owned by the harness: thread counts, repetitions and injected delays are explored, not interleavings; a pass means no dependence was observed".into()]
